@@ -47,6 +47,16 @@ impl<'i, 'o, BS: cipher::crypto_common::BlockSizes> BlockCipherEncClosure for En
             let mut tail: [Block<B>; 1] = verif_unknown();
             backend.encrypt_tail_blocks(InOutBuf::from(&mut tail[..]));
             backend.encrypt_tail_blocks_inplace(&mut tail[..]);
+            // tails of two and three blocks (a hand-written tail routine typically distinguishes 1 / several / full width)
+            // (the tail must be shorter than the parallel width: precondition of the cipher crate)
+            if <B::ParBlocksSize as cipher::typenum::Unsigned>::USIZE > 2 {
+                let mut tail2: [Block<B>; 2] = verif_unknown();
+                backend.encrypt_tail_blocks(InOutBuf::from(&mut tail2[..]));
+            }
+            if <B::ParBlocksSize as cipher::typenum::Unsigned>::USIZE > 3 {
+                let mut tail3: [Block<B>; 3] = verif_unknown();
+                backend.encrypt_tail_blocks(InOutBuf::from(&mut tail3[..]));
+            }
         }
         let mut empty: [Block<B>; 0] = [];
         backend.encrypt_tail_blocks(InOutBuf::from(&mut empty[..]));
@@ -74,6 +84,16 @@ impl<'i, 'o, BS: cipher::crypto_common::BlockSizes> BlockCipherDecClosure for De
             let mut tail: [Block<B>; 1] = verif_unknown();
             backend.decrypt_tail_blocks(InOutBuf::from(&mut tail[..]));
             backend.decrypt_tail_blocks_inplace(&mut tail[..]);
+            // tails of two and three blocks (a hand-written tail routine typically distinguishes 1 / several / full width)
+            // (the tail must be shorter than the parallel width: precondition of the cipher crate)
+            if <B::ParBlocksSize as cipher::typenum::Unsigned>::USIZE > 2 {
+                let mut tail2: [Block<B>; 2] = verif_unknown();
+                backend.decrypt_tail_blocks(InOutBuf::from(&mut tail2[..]));
+            }
+            if <B::ParBlocksSize as cipher::typenum::Unsigned>::USIZE > 3 {
+                let mut tail3: [Block<B>; 3] = verif_unknown();
+                backend.decrypt_tail_blocks(InOutBuf::from(&mut tail3[..]));
+            }
         }
         let mut empty: [Block<B>; 0] = [];
         backend.decrypt_tail_blocks(InOutBuf::from(&mut empty[..]));
